@@ -18,6 +18,17 @@ def lowerAscii (s : String) : String := s.map fun c => if 'A' ≤ c ∧ c ≤ 'Z
 /-- presentation name (no escapes) to lower-cased labels -/
 def labelsOf (name : String) : List String := ((lowerAscii name).splitOn ".").filter (· ≠ "")
 
+/-- the table of harness/c05 `hsContent`, as the hosts loader indexes it -/
+def hsDB : HostsDB :=
+  { hosts := [⟨"host1.zt".toList, true, true, false⟩, ⟨"host2.zt".toList, true, false, false⟩,
+              ⟨"canon.zt".toList, true, false, false⟩, ⟨"alias.zt".toList, true, false, true⟩],
+    wildcards := [⟨"wild.zt".toList, true, false⟩, ⟨"wild6.zt".toList, false, true⟩],
+    ptrs := ["10.2.0.192.in-addr.arpa.".toList, "11.2.0.192.in-addr.arpa.".toList, "14.2.0.192.in-addr.arpa.".toList] }
+
+def hostsStr : HostsOut → String
+  | .next => "next"
+  | .reply ts => s!"reply/rc=0/aa=t/an={if ts.isEmpty then "-" else "+".intercalate (ts.map toString)}/echo=t"
+
 def wfStr (w : WriterFacts) : String :=
   s!"next/size={w.size}/do={boolStr w.dnssecOK}/ne={boolStr w.noedns}/nsid={boolStr w.nsidAsked}/ka={boolStr w.keepalive}" ++
   s!"/noad={boolStr w.noad}/rus={w.respUDPSize}/ck={bytesHex (w.cookie.map UInt8.ofNat)}"
@@ -123,6 +134,13 @@ def step (st : State) (w : List String) : State × String :=
         else s!"rcode={rejectRcode v}/qr=1/op={(fl >>> 11) &&& 0xF}"
       (st, s!"verdict={v} udp={reply} tcp={reply}")
     | _ => (st, "bad-op")
+  | "hs" :: "run" :: kv =>
+    match kvGet kv "name", (kvGet kv "qt").bind String.toNat? with
+    | some name, some qt =>
+      -- the client's own spelling, label by label
+      let ls : List Str := ((name.splitOn ".").filter (· ≠ "")).map String.toList
+      (st, s!"w={hostsStr (hostsWire hsDB ls qt)} m={hostsStr (hostsMsg hsDB ls qt)}")
+    | _, _ => (st, "bad-op")
   | "rx" :: "facts" :: kv =>
     match (kvGet kv "pkt").bind natBytes with
     | some b =>
